@@ -92,6 +92,9 @@ def items(tier):
     add("slice-basic", mod="slice", index="basic", relative_dx=False, seeds="use_df")
     add("network-fromto", mod="network", relative_dx=False, seeds="use_df")
     add("network-all", mod="network", relative_dx=False, seeds="use_df", allsig=True)
+    add("network-reused-upstream-changed", mod="network-pre", relative_dx=False, seeds="use_df")
+    add("view-output-reshape", mod="view-output", view="reshape", relative_dx=False, seeds="use_df")
+    add("view-output-strided", mod="view-output", view="strided", relative_dx=True, seeds="use_df")
     return out
 
 
@@ -139,6 +142,36 @@ def _build(V, cfg):
             return net, None, None, [sx, sz, m1.sig_out[0], m2.sig_out[0], m3.sig_out[0]], dict(fromsig=None, tosig=None,
                                                                                                ins=[sx, sz], outs=None)
         return net, [sz], [m2.sig_out[0]], [sx, sz, m1.sig_out[0], m2.sig_out[0], m3.sig_out[0]], dict(fromsig=[sz], tosig=[m2.sig_out[0]])
+    if cfg["mod"] == "network-pre":
+        # the perturbed signal z is first used by the SECOND module: finite_difference evaluates the blocks in front of it
+        # once; `upstream` is changed after an earlier evaluation of the whole network (re-used network)
+        x = V.reals("x", 2, nonzero=True)
+        c = V.reals("c", 2, nonzero=True)
+        z = V.reals("z", 2, nonzero=True)
+        sx, sc, sz = pym.Signal("x", x), pym.Signal("c", c), pym.Signal("z", z)
+        m0 = pym.EinSum([sx, sc], expression="i,i->i")
+        m1 = pym.EinSum([m0.sig_out[0], sz], expression="i,i->")
+        net = pym.Network(m0, m1)
+        return net, [sz], [m1.sig_out[0]], [sx, sc, sz, m0.sig_out[0], m1.sig_out[0]], dict(
+            fromsig=[sz], tosig=[m1.sig_out[0]], upstream=sx, upstream_new=V.reals("xnew", 2, nonzero=True))
+    if cfg["mod"] == "view-output":
+        # a module whose output state shares memory with its (perturbed) input: y = x.reshape(2, 2) / x[::2]
+        x = V.reals("x", 4, nonzero=True)
+        sx = pym.Signal("x", x)
+        how = cfg["view"]
+
+        class View(pym.Module):
+            def _response(self, x):
+                return x.reshape(2, 2) if how == "reshape" else x[::2]
+
+            def _sensitivity(self, dy):
+                if how == "reshape":
+                    return np.asarray(dy).reshape(4)
+                out = np.zeros(4, dtype=np.asarray(dy).dtype) if not isinstance(dy, np.ndarray) or dy.dtype != object else np.array([0, 0, 0, 0], dtype=object)
+                out[::2] = dy
+                return out
+        m = View(sx)
+        return m, [sx], m.sig_out, [sx] + list(m.sig_out), dict()
     setup = BUILDERS[cfg["mod"]](V, cfg)
     m = setup.module
     if cfg.get("zero_entry"):
@@ -151,17 +184,20 @@ def scenario(V, P, cfg):
     import pymoto as pym
     from pymoto.core_objects import SignalSlice as _SignalSlice
     blk, ins, outs, allsig, extra = _build(V, cfg)
-    isnet = cfg["mod"] == "network"
+    isnet = cfg["mod"] in ("network", "network-pre")
     dx = V.real("dx", positive=True, default=0.001)
     # reference response at the base point (real response of the block)
     blk.response()
+    if isinstance(extra, dict) and extra.get("upstream") is not None:
+        # the network has been evaluated; now an upstream input (not among fromsig) gets a new value - without a response()
+        extra["upstream"].state = extra["upstream_new"]
     if ins is None:
         ins = list(blk.sig_in)       # a Network derives both lists from sets: take its own order
         outs = list(blk.sig_out)
     snap_states = [_snap(s.state) for s in ins]
     base_sigs = extra.get("base", []) if isinstance(extra, dict) else []
     snap_base = [_snap(s.state) for s in base_sigs]
-    y0 = [dense_entries(s.state) for s in outs]
+    y0 = [_snap(dense_entries(s.state)) for s in outs]
     if V.symbolic:
         for s in ins:        # perturbed entries are non-zero (the zero-structure items use literal zeros)
             for e in np.asarray(dense_entries(s.state), dtype=object).flat:
@@ -188,6 +224,10 @@ def scenario(V, P, cfg):
     drawn = []
     with contextlib.redirect_stdout(buf), _fixed_random(V, drawn):
         pym.finite_difference(blk, **kw)
+    if isinstance(extra, dict) and extra.get("upstream") is not None:
+        # base response for the inputs finite_difference was called with (the whole network, evaluated afresh)
+        blk.response()
+        y0 = [_snap(dense_entries(s.state)) for s in outs]
     if use_df is None:
         # reconstruct the seeds finite_difference generated from the recorded random draws
         use_df, k = [], 0
